@@ -9,6 +9,7 @@ package table
 
 import (
 	"container/list"
+	"sync"
 	"time"
 
 	enc "github.com/named-data/ndnd/std/encoding"
@@ -17,6 +18,10 @@ import (
 // RibTable represents the Routing Information Base (RIB).
 type RibTable struct {
 	RibEntry
+
+	// mutex serialises the management thread (register/unregister/list) and
+	// the face goroutines (face cleanup), which all mutate the RIB tree
+	mutex sync.Mutex
 }
 
 // RibEntry represents an entry in the RIB table.
@@ -159,6 +164,9 @@ func (r *RibEntry) updateNexthopsEnc() {
 
 // AddRoute adds or updates a RIB entry for the specified prefix.
 func (r *RibTable) AddEncRoute(name enc.Name, route *Route) {
+	r.mutex.Lock()
+	defer r.mutex.Unlock()
+
 	name = name.Clone()
 	node := r.fillTreeToPrefixEnc(name)
 	if node.Name == nil {
@@ -182,6 +190,9 @@ func (r *RibTable) AddEncRoute(name enc.Name, route *Route) {
 
 // GetAllEntries returns all routes in the RIB.
 func (r *RibTable) GetAllEntries() []*RibEntry {
+	r.mutex.Lock()
+	defer r.mutex.Unlock()
+
 	entries := make([]*RibEntry, 0)
 	// Walk tree in-order
 	queue := list.New()
@@ -209,6 +220,9 @@ func (r *RibEntry) GetRoutes() []*Route {
 
 // RemoveRoute removes the specified route from the specified prefix.
 func (r *RibTable) RemoveRouteEnc(name enc.Name, faceID uint64, origin uint64) {
+	r.mutex.Lock()
+	defer r.mutex.Unlock()
+
 	entry := r.findExactMatchEntryEnc(name)
 	if entry != nil {
 		for i, route := range entry.routes {
@@ -227,6 +241,13 @@ func (r *RibTable) RemoveRouteEnc(name enc.Name, faceID uint64, origin uint64) {
 }
 
 // CleanUpFace removes the specified face from all entries. Used for clean-up after a face is destroyed.
+func (r *RibTable) CleanUpFace(faceId uint64) {
+	r.mutex.Lock()
+	defer r.mutex.Unlock()
+	r.RibEntry.CleanUpFace(faceId)
+}
+
+// CleanUpFace removes the specified face from this entry and all entries below it.
 func (r *RibEntry) CleanUpFace(faceId uint64) {
 	// Recursively clean children
 	for child := range r.children {
